@@ -175,6 +175,12 @@ def partitions(tier):
                           params=dict(hr=hr, size=size, prefix="P", rsv=[], plen=plen, oldlens=[5] if known else [0, 5],
                                       lens=[1] if known else [0, 1, 9, "cap", "cap+1"], long=True,
                                       rsv_on_len=True, concrete=known)))
+    # the largest dynamic memory (TMS FFh, 2 KiB, sixteen segments): messages
+    # that reach into the last segment (previous contents concrete)
+    parts.append(dict(name="t1:dyn2048:last-segment", fn="t1",
+                      params=dict(hr=(0x12, 0x00), size=2048, prefix="LM", rsv=[(122, 6), (120, 2)],
+                                  oldlens=[0, 1900], lens=[1870, "cap-1", "cap", "cap+1"], long=True,
+                                  concrete=True)))
     for name, hr, size, prefix, rsv in T1:
         parts.append(dict(name="t1:%s:free" % name, fn="t1",
                           params=dict(hr=hr, size=size, prefix=prefix, rsv=rsv, oldlens=[0, 2],
